@@ -313,6 +313,15 @@ theorem generated_stage_sound (st : Stage) (hst : st ∈ CTM.Generated.stages) (
     · exact Or.inr (h1 _ hout)
 
 example : CTM.Generated.stats ∈ CTM.Generated.stages := by decide
+/-- the selection stage's in-loop poll (`… or not have_chosen_parent`): after
+worker 0 no further item can be chosen (`blocked 1`), so the loop keeps polling
+until worker 0 is gone although only one of four slots is in use -/
+example : (exec .dict
+    { nItems := 2, nProc := 4, keyOf := id, exit := (fun _ => 0), blocked := (fun w => w == 1) }
+    CTM.Generated.selection.prog { sched := [[], [], [0], [1]] }).outcome = .ok := by decide
+example : (exec .dict
+    { nItems := 2, nProc := 4, keyOf := id, exit := (fun _ => 0), blocked := (fun w => w == 1) }
+    CTM.Generated.selection.prog { sched := [[], [], []] }).outcome = .spin := by decide
 
 /-! ## `run_mapping` -/
 
